@@ -96,6 +96,8 @@ func init() {
 		"sync.(*WaitGroup).Add":   noop,
 		"sync.(*WaitGroup).Done":  noop,
 		"sync.(*WaitGroup).Wait":  noop,
+		"sort.SliceStable": sortSliceModel,
+		"sort.Slice":       sortSliceModel,
 		"io.ReadFull": func(x *fnCtx, st *State, fr *Frame, in ssa.Instruction, args []*Val, rt types.Type) *Val {
 			libUsed["io.ReadFull"] = true
 			buf := args[1]
@@ -177,5 +179,80 @@ func inCallArg(in ssa.Instruction, i int) ssa.Value {
 			return c.Call.Args[i]
 		}
 	}
+	return nil
+}
+
+// A-SORT: sort.Slice / sort.SliceStable reorder the slice into a permutation that is ordered
+// by the comparator. The comparator must be a closure under contract whose first `ensures`
+// has the form `result == <expr over i, j>`; the expression is instantiated on the sorted slice.
+func sortSliceModel(x *fnCtx, st *State, fr *Frame, in ssa.Instruction, args []*Val, rt types.Type) *Val {
+	libUsed["sort.Slice/SliceStable (permutation ordered by the contracted comparator)"] = true
+	call, ok := in.(*ssa.Call)
+	if !ok {
+		x.fail("sort.Slice outside a call instruction")
+	}
+	mi, ok := call.Call.Args[0].(*ssa.MakeInterface)
+	if !ok {
+		x.fail("sort.Slice on a non-literal interface value")
+	}
+	sl := x.getVal(st, fr, mi.X)
+	el := sl.T.Underlying().(*types.Slice).Elem()
+	less := args[1]
+	if less.Fn == nil {
+		x.fail("sort.Slice with unknown comparator")
+	}
+	pkg, key := funcKey(less.Fn.Fn)
+	con := x.eng.db.Funcs[pkg+"."+key]
+	var lessExpr *SExpr
+	if con != nil {
+		for _, cl := range con.ClausesOf("ensures") {
+			if cl.Expr.Kind == "bin" && cl.Expr.Op == "==" && cl.Expr.Args[0].Kind == "ident" && cl.Expr.Args[0].Op == "result" {
+				lessExpr = cl.Expr.Args[1]
+				break
+			}
+		}
+		con.Used = true
+	}
+	n := sl.Len()
+	lo := sl.Off()
+	hi := Add(sl.Off(), n)
+	// perm permutes the absolute index window [lo, hi)
+	perm := Fresh("sort.perm", ArrSort(SInt, SInt))
+	a := BVar("a", SInt)
+	b := BVar("b", SInt)
+	inR := func(v *Term) *Term { return And(Le(lo, v), Lt(v, hi)) }
+	st.assume(Forall([]*Term{a}, Implies(inR(a), inR(Select(perm, a))), Select(perm, a)))
+	st.assume(Forall([]*Term{a, b}, Implies(And(inR(a), inR(b), Eq(Select(perm, a), Select(perm, b))), Eq(a, b)), Select(perm, a), Select(perm, b)))
+	var sortedArrs []*Term
+	for li, l := range layout(el) {
+		old := x.elemArr(st, el, sl.Arr(), li)
+		nw := Fresh("sorted", ArrSort(SInt, l.Sort))
+		k := BVar("k", SInt)
+		st.assume(Forall([]*Term{k}, Eq(Select(nw, k), Ite(inR(k), Select(old, Select(perm, k)), Select(old, k))), Select(nw, k)))
+		x.setElemArr(st, el, sl.Arr(), li, nw)
+		sortedArrs = append(sortedArrs, nw)
+	}
+	if lessExpr == nil {
+		x.eng.logAbs("%s: comparator %s has no `ensures result == ...` contract: order of the sorted slice unknown", x.short, key)
+		return nil
+	}
+	// ordered: for a < b, not less(b, a), with the comparator's expression evaluated on the sorted slice
+	names := map[string]nameBind{}
+	for k2, v := range fr.names {
+		names[k2] = v
+	}
+	pn := less.Fn.Fn.Params
+	env := &specEnv{x: x, st: st, heap: st.heap, old: fr.oldHeap, names: names, fr: fr, bound: map[string]*Val{}}
+	// absolute indices a2 < b2 in the window; the comparator sees relative indices
+	a2 := BVar("a", SInt)
+	b2 := BVar("b", SInt)
+	env.bound[pn[0].Name()] = scalar(tInt, Sub(b2, lo))
+	env.bound[pn[1].Name()] = scalar(tInt, Sub(a2, lo))
+	lt := x.evalSpecBool(env, lessExpr)
+	var pats []*Term
+	if len(sortedArrs) > 0 {
+		pats = []*Term{Select(sortedArrs[0], a2), Select(sortedArrs[0], b2)}
+	}
+	st.assume(Forall([]*Term{a2, b2}, Implies(And(Le(lo, a2), Lt(a2, b2), Lt(b2, hi)), Not(lt)), pats...))
 	return nil
 }
